@@ -443,6 +443,14 @@ def assemble(unit: dict, scratch: str, passname="A") -> Assembled:
         p = os.path.join(unit["dir"], sf)
         specs.update(parse_vspec(open(p).read(), p))
     fn_by_key = {f["key"]: f for f in tr["fns"]}
+    # "rename_types": {"Map": "SdkMap"} — an SDK type whose name collides with a vstd type is renamed in the
+    # generated types and the extracted functions (never in model or spec files)
+    ren = unit.get("rename_types", {})
+
+    def rn(s):
+        for a, b in ren.items():
+            s = re.sub(r"\b%s\b" % re.escape(a), b, s)
+        return s
     for k in specs:
         if k not in fn_by_key:
             raise Undecided(f"lost anchor: contract for {k} but no such function extracted")
@@ -467,7 +475,7 @@ def assemble(unit: dict, scratch: str, passname="A") -> Assembled:
         if "*" not in want_types and t["name"] not in want_types:
             continue
         seen_t.add(t["name"])
-        parts.append(gen_type(t))
+        parts.append(rn(gen_type(t)))
     for it in unit.get("extra_items", []):
         parts.append(it)
     parts.append("// ==== spec pack ====")
@@ -504,7 +512,7 @@ def assemble(unit: dict, scratch: str, passname="A") -> Assembled:
         for f in groups[g]:
             key = f["key"]
             sp = specs.get(key)
-            body = splice_body(f["body"], sp, f["n_loops"], key)
+            body = splice_body(rn(f["body"]), sp, f["n_loops"], key)
             bc = (sp.opts.get("broadcast") if sp else None) or ",".join(unit.get("broadcast", []))
             if bc and bc != "none":
                 i = body.index("{")
@@ -514,7 +522,7 @@ def assemble(unit: dict, scratch: str, passname="A") -> Assembled:
             if sp and sp.trusted:
                 attrs = "#[verifier::external_body]\n"
             start = lines + 1
-            hdr = fn_header(f)
+            hdr = rn(fn_header(f))
             emit(f"// @@fn {key}  [{f['file']}]  src_sha={f['src_sha'][:16]}")
             emit(attrs + hdr)
             cstart = lines + 1
@@ -530,7 +538,7 @@ def assemble(unit: dict, scratch: str, passname="A") -> Assembled:
             if sp and sp.contract.strip() and not sp.trusted and sp.no_canary is None and unit.get("canaries", True):
                 cs = lines + 1
                 emit(f"// @@canary {key}")
-                emit(fn_header(f, name_override=f["name"] + "__canary"))
+                emit(rn(fn_header(f, name_override=f["name"] + "__canary")))
                 req = strip_ensures(contract)
                 emit(req + ("\n" if req.strip() else "") + "    ensures false,")
                 emit(body)
